@@ -149,7 +149,7 @@ def server_response(req, ctx, via_decoder=True):
             sreq = ServerDecoder().decode(wire)
         except Exception:  # noqa: BLE001 — multi-word diagnostic data cannot be decoded server side (C01/C12)
             sreq = None
-    if sreq is None:
+    if sreq is None or not hasattr(sreq, "execute"):     # undecodable, or a class the decoder does not know
         sreq = req.__class__.__new__(req.__class__)
         sreq.__dict__.update({k: (list(v) if isinstance(v, list) else v) for k, v in req.__dict__.items()})
     sreq.unit_id = req.unit_id
@@ -440,21 +440,24 @@ def tcp_transaction(q, ctx, addr=0, fill=0x1234, unit=5):
             "request_sent": len(sent)}
 
 
-def tcp_case(q, ctx, label, addr=0, fill=0x1234):
-    o = tcp_transaction(q, ctx, addr, fill)
+def tcp_case(q, ctx, label, addr=0, fill=0x1234, unit=5):
+    o = tcp_transaction(q, ctx, addr, fill, unit)
     term = ("{| rc_f := FSocket; rc_pred := %s; rc_frame := %s; rc_pdu := %s; rc_esc := 0; rc_fc := %s; "
             "rc_mbap := %s; rc_asked := %s; rc_left := %s |}"
             % (optz(o["pred"]), z(o["frame"]), z(o["pdu"]), z(o["fc"]), z(o["mbap"]),
                lst(optz(x) for x in o["asked"]), z(o["left"])))
-    desc = dict(o, framing="FSocket", q=list(q), addr=addr, fill=fill, tcp_client=True)
+    desc = dict(o, framing="FSocket", q=list(q), addr=addr, fill=fill, tcp_client=True, unit=unit)
     return Case(term, desc, kind="tcp:%s" % label, nontrivial=o["frame"] > 0)
 
 
 def suite_tcp(tier):
     r = common.rng("C14.tcp")
     ctx = mk_context()
-    return Suite("tcp", IMPORTS, "chk_recv",
-                 [tcp_case(q, ctx, label, addr, fill) for q, label, addr, fill in recv_requests(r, tier)], shard=300)
+    cases = [tcp_case(q, ctx, label, addr, fill) for q, label, addr, fill in recv_requests(r, tier)]
+    # unit ids >= 0x80: the byte before the function code must not be mistaken for it
+    for q, label, addr, fill in recv_requests(r, tier)[:40:3]:
+        cases.append(tcp_case(q, ctx, label + "-unit200", addr, fill, unit=200))
+    return Suite("tcp", IMPORTS, "chk_recv", cases, shard=300)
 
 
 def suites(tier):
@@ -506,7 +509,7 @@ def replay_case(suite, desc):
         c = pdu_case(tuple(desc["q"]), ctx, "replay")
         r = coqrun.eval_cases("C14_replay", IMPORTS, "chk_pdu", [c.term])
     elif desc.get("tcp_client"):
-        c = tcp_case(tuple(desc["q"]), ctx, "replay", desc.get("addr", 0), desc.get("fill", 0))
+        c = tcp_case(tuple(desc["q"]), ctx, "replay", desc.get("addr", 0), desc.get("fill", 0), desc.get("unit", 5))
         r = coqrun.eval_cases("C14_replay", IMPORTS, "chk_recv", [c.term])
     else:
         c = recv_case(desc["framing"], tuple(desc["q"]), ctx, "replay", desc.get("addr", 0), desc.get("fill", 0))
